@@ -427,9 +427,19 @@ def insert_scenarios_obligations(chk, prop):
             if new_c:
                 ent.append((Adt('runner::basic::ScenarioType', {}, ix.Ty['Concurrent']), Obj('vec', items=tuple(ins_value(q) for q in new_c), ty='Vec<..>')))
             arg = M.new_assoc('runner::basic::ScenarioType', 'Vec<..>', ent)
-            co = ex_.call_body(entry, [Ref(cell, ()), arg])
+            args = [Ref(cell, ()), arg]
+            given_now = []
+            for (_l, pty) in entry.params[2:]:
+                # a change may hand the base instant in instead of reading the clock inside: the caller's reading of
+                # the clock at the call is what "now" means then
+                if pty.endswith('Instant'):
+                    given_now.append(M.tick(ex_))
+                    args.append(given_now[-1])
+                else:
+                    args.append(common.default_by_type(M, pty, _l))
+            co = ex_.call_body(entry, args)
             poll_to_completion(ex_, M, co, 4)
-            return {'storage': mcell.v, 'now': list(ex_.env.get('now_calls', []))}
+            return {'storage': mcell.v, 'now': given_now or list(ex_.env.get('now_calls', []))}
 
         def on_end(ex_, rec, M=M, new_s=new_s, new_c=new_c, old_s=old_s, old_c=old_c):
             kind, res, pc, dec = rec
